@@ -63,6 +63,12 @@ class Cls:
             return None if v is None else (v == "True")
         return self.parent.omit_none if self.parent else None
 
+    def cfg_flag(self, name) -> bool:
+        """effective boolean Config option (nearest Config in the MRO; BaseConfig default False)"""
+        if self.own_config:
+            return self.extra.get(name) == "True"
+        return self.parent.cfg_flag(name) if self.parent else False
+
     def ancestors(self):
         c = self.parent
         while c is not None:
@@ -244,6 +250,10 @@ def gen_scenario(rng, sid, dialect_p=0.3, wide=False) -> Scenario:
             extra["allow_postponed_evaluation"] = "False"
         if not wide and rng.random() < 0.3:
             extra["omit_none"] = rng.choice(["True", "True", "False"])       # in the Coq model (c_omit_none)
+        if not wide:
+            for o in ("sort_keys", "forbid_extra_keys", "allow_deserialization_not_by_alias"):   # in the Coq model too
+                if rng.random() < 0.25:
+                    extra[o] = rng.choice(["True", "True", "False"])
         defaults = {}
         if wide:
             for o in WIDE_OPTS:
@@ -675,6 +685,10 @@ def coq_optb(b) -> str:
     return "None" if b is None or b in ("unset", "strategy") else ("(Some true)" if b else "(Some false)")
 
 
+def coq_bool_(b) -> str:
+    return "true" if b else "false"
+
+
 def coq_opts(sc: Scenario) -> str:
     """the dialect Dl as one option layer of the model"""
     ba = sc.dialect if isinstance(sc.dialect, bool) else None
@@ -696,7 +710,9 @@ def coq_env(sc: Scenario, has=None) -> str:
         fs = "; ".join(f"mkF {coq_str(fn)} {('(Some ' + coq_str(al) + ')') if al else 'None'} {coq_ty(ft)}"
                        for (fn, al, ft) in c.fields)
         par = f"(Some {coq_str(c.parent.name)})" if c.parent else "None"
-        items.append(f"mkC {coq_str(c.name)} {par} [{fs}] {coq_optb(c.by_alias)} {coq_optb(c.omit_none)} {'true' if has[c.name] else 'false'}")
+        items.append(f"mkC {coq_str(c.name)} {par} [{fs}] {coq_optb(c.by_alias)} {coq_optb(c.omit_none)} "
+                     f"{coq_bool_(c.cfg_flag('sort_keys'))} {coq_bool_(c.cfg_flag('forbid_extra_keys'))} "
+                     f"{coq_bool_(c.cfg_flag('allow_deserialization_not_by_alias'))} {'true' if has[c.name] else 'false'}")
     return "[" + ";\n   ".join(items) + "]"
 
 
@@ -714,5 +730,7 @@ def coq_res(r) -> str:
         return f"(Err (XInvalid {coq_str(r[2])} {coq_str(r[3])}))"
     if kind == "missing":
         return f"(Err (XMissing {coq_str(r[2])} {coq_str(r[3])}))"
+    if kind == "extra":
+        return f"(Err (XExtra {coq_str(r[3])}))"
     # anything else can never equal a model result (XUnmodelled is never an expectation)
     return "(Err XUnmodelled)"
